@@ -26,16 +26,18 @@ def lcell(pages, prefix='sym', default_suffix=False, klen=3, T=60):
     nk = sum(int(p[1:]) for p in pages if p.startswith('c'))
     P = {'pages': list(pages), 'prefix': prefix, 'default_suffix': default_suffix}
     sym = [('k%d' % i, 'str') for i in range(nk)]
-    pre = ["re.fullmatch('[a-c./]{1,%d}', k%d)" % (klen, i) for i in range(nk)]
-    ex = {'k%d' % i: ['a.c', 'b', 'c.c', '.c'][i % 4] for i in range(nk)}
+    # keys and suffix mix upper and lower case: matching is exact (S3 keys are case-sensitive)
+    pre = ["re.fullmatch('[abAB./]{1,%d}', k%d)" % (klen, i) for i in range(nk)]
+    ex = {'k%d' % i: ['a.B', 'b', 'A.b', '.B', 'a.b'][i % 5] for i in range(nk)}
     if default_suffix:
         P['suffix'] = '.mos.xml'
-        pre = ["re.fullmatch('[a-c]?([.]mos[.]xml|[.]xml|[.]mos[.]xmlx)', k%d)" % i for i in range(nk)]
-        ex = {'k%d' % i: ['a.mos.xml', 'b.xml', 'c.mos.xmlx', '.mos.xml'][i % 4] for i in range(nk)}
+        pre = ["re.fullmatch('[a-c]?(%s)', k%d)" % (('[.]mos[.]xml|[.]MOS[.]xml|[.]xml', '[.]mos[.]xml|[.]xml|[.]mos[.]xmlx')[i % 2], i)
+               for i in range(nk)]
+        ex = {'k%d' % i: ['b.MOS.xml', 'c.mos.xmlx', 'a.mos.xml', '.mos.xml'][i % 4] for i in range(nk)}
     else:
         sym.append(('suf', 'str'))
-        pre.append("re.fullmatch('[a-c./]{1,2}', suf)")
-        ex['suf'] = '.c'
+        pre.append("re.fullmatch('[abAB./]{1,2}', suf)")
+        ex['suf'] = '.B'
     if prefix == 'sym':
         sym.append(('pfx', 'str'))
         pre.append('len(pfx) <= 2')
